@@ -18,7 +18,7 @@ use crate::corrupt::{
 use crate::dictops::{load_user, map_ids};
 use crate::io::{gen_benign, gen_hard};
 use crate::obs::{build_dict, has_space, make_tokenizer, option_sets, read_tokens};
-use crate::plan::{Fault, Op, Plan};
+use crate::plan::{Op, Plan};
 use crate::rng::Rng;
 use crate::world::{
     gen_perm, gen_sentence, gen_user_csv, gen_world, join_ids, parse_ids, WorldCfg, ALPHABET,
@@ -133,6 +133,27 @@ fn reference_char_def(text: &str) -> Option<RefCharDef> {
         }
     }
     Some(RefCharDef { cats, ranges })
+}
+
+/// Category names indexed by category id, per the reference interpretation of char.def.
+pub fn category_order(char_def: &str) -> Option<Vec<String>> {
+    let rc = reference_char_def(char_def)?;
+    let mut v = vec![String::new(); rc.cats.len()];
+    for (n, c) in &rc.cats {
+        *v.get_mut(c.id as usize)? = n.clone();
+    }
+    Some(v)
+}
+
+/// Primary category id of a BMP character per the reference interpretation of char.def.
+pub fn primary_category(char_def: &str, c: char) -> Option<u32> {
+    let rc = reference_char_def(char_def)?;
+    let cp = u32::from(c);
+    if cp > 0xFFFF {
+        // characters outside the table share the entry of U+0000
+        return rc.info(0).map(|i| i.1);
+    }
+    rc.info(cp).map(|i| i.1)
 }
 
 impl RefCharDef {
@@ -277,7 +298,11 @@ fn check_safe_use(dict: Dictionary, probes: &[String], stage: &str, ctx: &mut Ct
 /// Predicate of known finding KF-C10-1: the panic is in tokenizer/lattice.rs and some character of
 /// the sentence belongs (as primary category) to a category that has no unk.def entry.
 fn is_known_unk_gap(p: &PanicInfo, dict: &Dictionary, s: &str) -> bool {
-    if !p.file.ends_with("tokenizer/lattice.rs") {
+    // the specific failure: the best-predecessor index is the INVALID marker (65535) on an empty
+    // node list, i.e. no node reaches the boundary EOS (or a word) connects from
+    if !p.file.ends_with("tokenizer/lattice.rs")
+        || !p.msg.contains("the len is 0 but the index is 65535")
+    {
         return false;
     }
     s.chars().any(|c| {
